@@ -26,7 +26,7 @@ def rt_cfg(path, shapes, attrs, maxattrs, opts, simulate=False):
     with open(path, "w") as f:
         f.write("CONSTANTS\n  ShapeIds = %s\n  AttrIds = %s\n  MaxAttrs = %d\n  OptIds = %s\n" %
                 (_set(shapes), _set(attrs), maxattrs, _set(opts)))
-        f.write("SPECIFICATION Spec\nINVARIANTS ModelHeaderDescribesBody ModelRoundTrip ModelGapIsReal %s\n" %
+        f.write("SPECIFICATION Spec\nINVARIANTS ModelHeaderDescribesBody ModelRoundTrip %s\n" %
                 ("EmitLeaf" if simulate else "Emit"))
         f.write("CHECK_DEADLOCK FALSE\n")
 
@@ -100,7 +100,7 @@ def gen_rt(ctx, vh):
                                      range(1, 11), 3 if quick else 5, [1, 2, 3, 4, 5]), "bfsB")
     notes["rtB_states"] = r.distinct
     notes["rtB_cases"] = len(b)
-    cases += _sample(rng, b, 700 if quick else 12000, keep=lambda c: c["gap"] and rng.random() < 0.1)
+    cases += _sample(rng, b, 700 if quick else 12000, keep=lambda c: c["risky"] and rng.random() < 0.3)
 
     # (C) random walks over the wide bounds
     c, r = _run_gen(ctx, "rtC", "PlyGenRT",
@@ -206,7 +206,7 @@ def judge(ctx, raw, name):
                 continue
             ln = json.loads(sh[v["l"] - 1])
             for b in v["bad"]:
-                findings.append({"pred": b["p"], "id": v["id"], "why": sorted(b.get("why", [])), "cls": v.get("cls", "-"),
+                findings.append({"pred": b["p"], "id": v["id"], "why": sorted(b.get("why", [])), "cls": sorted(b.get("cls", [])),
                                  "fmt": ln.get("fmt", ""), "wr": ln.get("wr", ""), "rd": ln.get("rd", ""),
                                  "werr": ln.get("werr", ""), "rerr": ln.get("rerr", "")})
     return findings
@@ -224,10 +224,8 @@ def execute_and_judge(ctx, vh, cases, name="main"):
 
 def signature(f):
     why = "+".join(f["why"]) or "-"
-    if f["cls"] == "mixed-type-group":
-        return "%s/%s" % (f["pred"], f["cls"])
-    if f["cls"] != "-":
-        return "%s/%s/%s" % (f["pred"], why, f["cls"])
+    if f["cls"] and "-" not in f["cls"]:   # classes of known deviations explain the rejection exactly (TracePly)
+        return "%s/%s" % (f["pred"], "+".join(f["cls"]))
     return "%s/%s/%s" % (f["pred"], why, f["fmt"])
 
 
@@ -242,7 +240,7 @@ def strip(case):
 def rt_counters(cases, raw):
     n = {"cases": len(cases), "welded_triangle_texcoord": 0, "point_nonidentity_idx": 0, "uchar_stored": 0,
          "custom_writer": 0, "unspec_off": 0, "bits_mode": 0, "bigint_mode": 0, "user_scalar": 0,
-         "unreferenced_vertex": 0, "model_risky": 0, "model_gap": 0}
+         "unreferenced_vertex": 0, "model_risky": 0, "point_texcoord": 0}
     for c in cases:
         m, o = c["mesh"], c["opts"]
         names = {(a["n"], a["ar"]) for a in m["attrs"]}
@@ -262,7 +260,7 @@ def rt_counters(cases, raw):
         n["bigint_mode"] += c["mode"] == "lat" and c["D"] == 1
         n["user_scalar"] += any(a["ar"] == 1 and a["n"] not in ("Opacity",) for a in m["attrs"])
         n["model_risky"] += bool(c.get("risky"))
-        n["model_gap"] += bool(c.get("gap"))
+        n["point_texcoord"] += m["topo"] == "point" and ("TexCoord", 2) in names
     enc = [json.loads(x) for x in raw if x.startswith('{"k":"enc"')]
     n["enc_lines"] = len(enc)
     n["written_ok"] = sum(1 for e in enc if e["wr"] == "OK")
